@@ -1,4 +1,5 @@
 import BasicModel.Proto
+import BasicModel.ProtoAst
 import BasicModel.Spec.IntSpec
 import BasicModel.Spec.StrSpec
 /-
@@ -93,8 +94,18 @@ def answerSpec : List String → String
       | none => "bad-val")
   | _ => "bad-request"
 
+def readLineNo (s : String) : Option (Option Nat) :=
+  if s == "-" then some none else s.toNat?.map some
+
+def answerParse : List String → String
+  | ln :: toks => (match readLineNo ln, (toks.filter (· ≠ "")).mapM readToken with
+      | some n, some ts => showParse (Parse.parse n ts)
+      | _, _ => "bad-request")
+  | [] => "bad-request"
+
 def answer (line : String) : String :=
   match line.splitOn " " with
+  | "PARSE" :: rest => answerParse rest
   | "SPEC" :: rest => answerSpec rest
   | "OP" :: name :: args => answerOp name args
   | ["FMT", v] => (match readVal v with
